@@ -357,11 +357,21 @@ where
                 .sqrt();
             let plus = deriv_quotient + sqrt;
             let minus = deriv_quotient - sqrt;
-            let a = if plus.abs() > minus.abs() {
+            let mut a = if plus.abs() > minus.abs() {
                 order / plus
             } else {
                 order / minus
             };
+            // Some root lies within |p(x) / c_n|^(1/n) of the guess. A step that
+            // is not finite or is far beyond that distance means that the first
+            // and second derivative vanish at the guess up to round off, as they
+            // do at the origin for x^n - c: leave that stationary point by a step
+            // of this size instead of dividing by (almost) zero.
+            let radius = (val.abs() / complex.coefficients.last().unwrap().abs())
+                .powf(order.re.recip());
+            if !(a.abs() <= order.re * radius) {
+                a = Complex::<N::RealField>::new(radius, radius * N::RealField::from_f64(0.5).unwrap());
+            }
             guess -= a;
             k += 1;
         }
